@@ -1006,7 +1006,7 @@ func genTemplate(r *common.Rand) Case {
 	c := Case{Prep: basePrep(), Preserve: r.Chance(1, 4)}
 	t := common.Pick(r, []string{"t", "a", "k", "t/b"})
 	fin := common.Pick(r, []string{"victim", "a", "x/victim", "k"})
-	switch k := r.Intn(20); k {
+	switch k := r.Intn(23); k {
 	case 0: // raw link target goes through an earlier link and climbs
 		c.Origin = "tpl-raw-target"
 		d := 1 + r.Intn(3)
@@ -1091,6 +1091,65 @@ func genTemplate(r *common.Rand) Case {
 			c.Pushes = []Push{{Kind: "U", Title: "u", Entries: []Entry{{Kind: "r", Name: "u/" + fin, Tag: 6}}},
 				{Kind: "U", Title: "v", Entries: []Entry{{Kind: "h", Name: "v/h", Target: "../u/victim"}, {Kind: "r", Name: "v/h", Tag: 7}}}}
 		}
+	case 19, 20, 21: // histories on one store that revisit a path with another kind of entry:
+		// (1) something makes the store create / check the directory P, (2) a later archive replaces
+		// P (directory -> chained link, link -> directory, directory -> file ...), (3) a write at or
+		// below P.  Every operation has to walk the path again in the current tree.
+		c.Origin = "tpl-revisit"
+		a := common.Pick(r, []string{"a", "t", "k"})
+		e := common.Pick(r, []string{"e", "c", "b/e"})
+		P := a + "/" + e
+		up := ""
+		if strings.Contains(e, "/") {
+			up = "../"
+		}
+		// chained links, each lexically inside the unpack directory a: p -> ., q -> p/.. (= wd),
+		// q2 -> q/.. (one above wd) ...; P -> <last>/..
+		chain := []Entry{{Kind: "s", Name: a + "/p", Target: "."}, {Kind: "s", Name: a + "/q", Target: "p/.."}}
+		last := "q"
+		for i := 0; i < r.Intn(3); i++ {
+			nm := fmt.Sprintf("q%d", i+2)
+			chain = append(chain, Entry{Kind: "s", Name: a + "/" + nm, Target: last + "/.."})
+			last = nm
+		}
+		var p1, p2 []Push
+		switch r.Intn(5) {
+		case 0:
+			p1 = []Push{{Kind: "U", Title: P, Entries: []Entry{{Kind: "d", Name: P}}}}
+		case 1:
+			p1 = []Push{{Kind: "B", Title: P + "/x", Tag: 0}} // fails verification: P stays, empty
+		case 2:
+			p1 = []Push{{Kind: "U", Title: a, Entries: []Entry{{Kind: "d", Name: P, Mode: 0o700}}}}
+		case 3:
+			p1 = []Push{{Kind: "U", Title: P, Entries: nil}, {Kind: "B", Title: P + "/y", Tag: 0}}
+		default: // P is a link first
+			p1 = []Push{{Kind: "U", Title: a, Entries: append(append([]Entry{}, chain...), Entry{Kind: "s", Name: P, Target: up + last + "/.."})}}
+		}
+		switch r.Intn(5) {
+		case 0, 1, 2:
+			p2 = []Push{{Kind: "U", Title: a + "x", Entries: nil}, {Kind: "U", Title: a, Entries: append(append([]Entry{}, chain...), Entry{Kind: "s", Name: P, Target: up + last + "/.."})}}
+			if r.Bool() {
+				p2 = p2[1:]
+			}
+		case 3:
+			p2 = []Push{{Kind: "U", Title: a, Entries: []Entry{{Kind: "r", Name: P, Tag: 21}, {Kind: "d", Name: P}, {Kind: "s", Name: P, Target: "."}}}}
+		default:
+			p2 = []Push{{Kind: "U", Title: a, Entries: []Entry{{Kind: "d", Name: P}, {Kind: "d", Name: P + "/sub"}}}}
+		}
+		var p3 []Push
+		leaf := common.Pick(r, []string{"victim", "created", "x/victim", "victim"})
+		switch r.Intn(5) {
+		case 0, 1:
+			p3 = []Push{{Kind: "B", Title: P + "/" + leaf, Tag: 22}}
+		case 2:
+			p3 = []Push{{Kind: "U", Title: P, Entries: []Entry{{Kind: "r", Name: P + "/" + leaf, Tag: 23}}}}
+		case 3:
+			p3 = []Push{{Kind: "B", Title: P + "/" + leaf, Tag: 0}, {Kind: "B", Title: P, Tag: 24}}
+		default:
+			p3 = []Push{{Kind: "U", Title: a + "/z", Entries: []Entry{{Kind: "h", Name: a + "/z/h", Target: "../" + e + "/victim"}, {Kind: "r", Name: a + "/z/h", Tag: 25}}},
+				{Kind: "B", Title: P + "/" + leaf, Tag: 26}}
+		}
+		c.Pushes = append(append(p1, p2...), p3...)
 	case 17: // manifest whose named layers are restored from content the store already holds
 		c.Origin = "tpl-manifest-layers"
 		titles := []string{pickSeg(r), "m/" + pickSeg(r), "../victim", "../wd-old/victim.txt", s3Dir + "/victim", "a/../../x/victim", wdDir + "/ok"}
@@ -1367,7 +1426,7 @@ func main() {
 	// coverage floors: a run in which a stream produced nothing must not pass silently
 	for _, k := range []string{"origin=exhaustive-2", "origin=random", "origin=tpl-deep-below-link", "origin=tpl-raw-target",
 		"origin=tpl-prefix-sibling", "origin=tpl-hardlink-nested-dotdot", "origin=tpl-manifest-layers", "origin=tpl-bad-content",
-		"origin=tpl-prepop-hardlink", "wd=missing", "wd=link", "wd=via", "push.B", "push.U", "push.M", "entry.r", "entry.d", "entry.h", "entry.s"} {
+		"origin=tpl-prepop-hardlink", "origin=tpl-revisit", "wd=missing", "wd=link", "wd=via", "push.B", "push.U", "push.M", "entry.r", "entry.d", "entry.h", "entry.s"} {
 		if run.Dist[k] == 0 {
 			fmt.Fprintln(os.Stderr, "C11 harness: coverage floor not met:", k, "= 0")
 			run.Finish()
